@@ -4,13 +4,24 @@ import HcipyVerif.Model.Detector
 /-! Line-protocol front end of the C17 model (detectors).
 
 ```
-new noiseless <s> <dims>                one detector per `new`; dims = coarse shape, slowest first
+new noiseless <s> <dims>                one detector per `new`; dims = coarse shape, slowest first; <s> = one factor
+                                        (`Geom.uniform`) or a list of per-axis factors in the order of dims
 new noisy <s> <dims> <dark> <flat|->    NoisyDetector, photon noise off, read noise 0 (`pInit`; `0 -` = `allOff`)
 set flat|dark|sigma <list>              assign a parameter (one value per pixel); set photon 0|1
 int <power-list> <dt> <weight>          -> ok | err value
 read                                    -> ok <image-list>            (noiseless: `step`)
                                            ok <image-list> off|on     (noisy: `pStep`; the flag is `PSt.off` before the read-out)
                                            ok random off|on           (noisy with photon or read noise on)
+readrng <δ-list> <z-list>               noisy read-out with the random draws given (`pReadOutRng`): δ = Poisson draw − expectation,
+                                        z = standard-normal deviates of the read noise
+                                        -> ok <image-list> <lam-list|-> <spec-list|->
+                                        lam = what the photon-noise stage is handed (`-` when it is off); spec = the closed form
+                                        `Σ bin(p)·dt·w ⊕ dark·Σ dt·w` (`sumCharges`, `darkTime`) over the integrations since the last
+                                        read-out (`-` when the dark current rate was assigned during the exposure)
+imgs                                    -> ok <list;list;…|->   `images` of all observations so far: the images returned, in order
+                                        (read-outs with photon / read noise on are not images)
+twin                                    noisy kinds: -> ok <list;…|->  the images a noiseless detector returns on the history with the
+                                        setters removed (`reads g {} (strip history)`)
 tint input|foreign|plain                the grid label of the power handed to integrate (`tStep`)   -> ok
 tread                                   -> ok detector|input|foreign   (label of the image read out)
 
@@ -31,11 +42,31 @@ deriving BEq
 
 structure St where
   kind : Kind := .noiseless
-  geom : Geom := { dims := [] }
+  geom : Geom := Geom.uniform []
   st : Detector.St Rat := {}
   pst : PSt Rat := { flat := [], dark := [], sigma := [] }
   rst : RSt Rat := {}
   tst : TSt := {}
+  /-- every observation of the history so far (`run` / `pRun` collect exactly this list) -/
+  obs : List (Obs Rat) := []
+  /-- the history of a noisy detector so far, setters included -/
+  pops : List (POp Rat) := []
+  /-- noisy kinds: the integrations accepted since the last read-out, and whether the dark current rate has stayed
+  what it was when the first of them was made (then the closed form of `noisy_charge_is_sum_plus_dark` applies) -/
+  cur : List (List Rat × Rat × Rat) := []
+  darkConst : Bool := true
+
+/-- `<s>`: one factor for every axis, or a list of per-axis factors (same order and length as `dims`, none zero) -/
+def parseGeom? (s dims : String) : Option Geom :=
+  match parseNatList? dims with
+  | none => none
+  | some dims =>
+    match parseNat? s with
+    | some s => if s = 0 then none else some (Geom.uniform dims s)
+    | none =>
+      match parseNatList? s with
+      | some ss => if h : ss.length = dims.length then (if ss.contains 0 then none else some { dims := dims, ss := ss, hl := h }) else none
+      | none => none
 
 def showObs : Obs Rat → String
   | .done => "ok"
@@ -46,42 +77,61 @@ def showObs : Obs Rat → String
 
 def apply (st : St) (op : Op Rat) : St × String :=
   match st.kind with
-  | .noiseless => let r := Detector.step st.geom st.st op; ({ st with st := r.1 }, showObs r.2)
+  | .noiseless => let r := Detector.step st.geom st.st op; ({ st with st := r.1, obs := st.obs ++ [r.2] }, showObs r.2)
   | .noisy =>
     let r := Detector.pStep st.geom st.pst (lift op)
     let flag := match op with
       | .readOut => if st.pst.off st.geom then " off" else " on"
       | _ => ""
-    ({ st with pst := r.1 }, showObs r.2 ++ flag)
+    let cur := match op, r.2 with
+      | .integrate p dt w, .done => st.cur ++ [(p, dt, w)]
+      | .integrate _ _ _, _ => st.cur
+      | .readOut, _ => []
+    let dc := match op with
+      | .readOut => true
+      | _ => st.darkConst
+    ({ st with pst := r.1, obs := st.obs ++ [r.2], pops := st.pops ++ [lift op], cur := cur, darkConst := dc }, showObs r.2 ++ flag)
 
 def step (st : St) : List String → St × String
   | ["reset"] => ({}, "ok")
   | ["new", kind, s, dims] =>
-    match parseNat? s, parseNatList? dims with
-    | some s, some dims =>
-      if s = 0 then (st, "bad-op") else
+    match parseGeom? s dims with
+    | some g =>
       match kind with
-      | "noiseless" => ({ kind := .noiseless, geom := { dims := dims, s := s } }, "ok")
+      | "noiseless" => ({ kind := .noiseless, geom := g }, "ok")
       | _ => (st, "bad-op")
-    | _, _ => (st, "bad-op")
+    | none => (st, "bad-op")
   | ["new", "noisy", s, dims, dark, flat] =>
-    match parseNat? s, parseNatList? dims, parseRat? dark with
-    | some s, some dims, some dark =>
-      if s = 0 then (st, "bad-op") else
-      let n := size dims
+    match parseGeom? s dims, parseRat? dark with
+    | some g, some dark =>
+      let n := g.npix
       let flat? := if flat == "-" then some (List.replicate n (1 : Rat)) else parseRatList? flat
       match flat? with
       | some fl =>
         if fl.length ≠ n then (st, "bad-op") else
-        let g : Geom := { dims := dims, s := s }
         ({ kind := .noisy, geom := g, pst := pInit g dark fl }, "ok")
       | none => (st, "bad-op")
-    | _, _, _ => (st, "bad-op")
+    | _, _ => (st, "bad-op")
+  | ["readrng", d, z] =>
+    if st.kind != .noisy then (st, "bad-op") else
+    match parseRatList? d, parseRatList? z with
+    | some d, some z =>
+      if d.length ≠ st.geom.npix || z.length ≠ st.geom.npix then (st, "bad-op") else
+      let r := pReadOutRng st.geom st.pst d z
+      ({ st with pst := r.1, pops := st.pops ++ [.readOut], cur := [], darkConst := true }, "ok " ++ showRatList r.2 ++ " " ++
+        (if st.pst.photon then showRatList (st.pst.lam st.geom) else "-") ++ " " ++
+        (if st.darkConst then
+          showRatList (vadd (sumCharges st.geom st.cur) (st.pst.dark.map (· * darkTime st.cur))) else "-"))
+    | _, _ => (st, "bad-op")
   | ["int", p, dt, w] =>
     match parseRatList? p, parseRat? dt, parseRat? w with
     | some p, some dt, some w => apply st (.integrate p dt w)
     | _, _, _ => (st, "bad-op")
   | ["read"] => apply st .readOut
+  | ["imgs"] => (st, "ok " ++ showRatLists (images st.obs))
+  | ["twin"] =>
+    if st.kind != .noisy then (st, "bad-op") else
+    (st, "ok " ++ showRatLists (images (reads st.geom ({} : Detector.St Rat) (strip st.pops))))
   | ["tint", p] =>
     let p? : Option PTag := match p with
       | "input" => some .onInput
@@ -135,8 +185,8 @@ def step (st : St) : List String → St × String
   | ["set", "photon", b] =>
     if st.kind != .noisy then (st, "bad-op") else
     match b with
-    | "0" => ({ st with pst := (Detector.pStep st.geom st.pst (.setPhoton false)).1 }, "ok")
-    | "1" => ({ st with pst := (Detector.pStep st.geom st.pst (.setPhoton true)).1 }, "ok")
+    | "0" => ({ st with pst := (Detector.pStep st.geom st.pst (.setPhoton false)).1, pops := st.pops ++ [.setPhoton false] }, "ok")
+    | "1" => ({ st with pst := (Detector.pStep st.geom st.pst (.setPhoton true)).1, pops := st.pops ++ [.setPhoton true] }, "ok")
     | _ => (st, "bad-op")
   | ["set", what, l] =>
     if st.kind != .noisy then (st, "bad-op") else
@@ -144,9 +194,10 @@ def step (st : St) : List String → St × String
     | some l =>
       if l.length ≠ st.geom.npix then (st, "bad-op") else
       match what with
-      | "flat" => ({ st with pst := (Detector.pStep st.geom st.pst (.setFlat l)).1 }, "ok")
-      | "dark" => ({ st with pst := (Detector.pStep st.geom st.pst (.setDark l)).1 }, "ok")
-      | "sigma" => ({ st with pst := (Detector.pStep st.geom st.pst (.setSigma l)).1 }, "ok")
+      | "flat" => ({ st with pst := (Detector.pStep st.geom st.pst (.setFlat l)).1, pops := st.pops ++ [.setFlat l] }, "ok")
+      | "dark" => ({ st with pst := (Detector.pStep st.geom st.pst (.setDark l)).1, pops := st.pops ++ [.setDark l],
+                              darkConst := st.darkConst && st.cur.isEmpty }, "ok")
+      | "sigma" => ({ st with pst := (Detector.pStep st.geom st.pst (.setSigma l)).1, pops := st.pops ++ [.setSigma l] }, "ok")
       | _ => (st, "bad-op")
     | none => (st, "bad-op")
   | _ => (st, "bad-op")
